@@ -319,7 +319,34 @@ BEGIN { print "L" mark(); r(50); %TAIL% }`, 0, "async"},
 	// the child never reads: the interpreter blocks in the write once the pipe is full; killing the
 	// child turns the write into EPIPE, a secondary error that must not replace the context's
 	{"pipe-write-blocked", `BEGIN { s = sprintf("%70000s", "x"); print "L" mark(); pre(); for (i = 0; i < 60; i++) print s | "%CMD%"; post(); %TAIL% }`, 0, "async"},
+	// the same in END, in a function called from END, and in a main rule: the secondary error
+	// surfaces on the error path of those blocks
+	{"pipe-write-blocked-END", `{ print "L" mark() }
+END { s = sprintf("%70000s", "x"); pre(); for (i = 0; i < 60; i++) print s | "%CMD%"; post(); %TAIL% }`, 3, "async"},
+	{"pipe-write-blocked-END-function", `function w(   i, s) { s = sprintf("%70000s", "x"); pre(); for (i = 0; i < 60; i++) printf "%s\n", s | "%CMD%"; post() }
+END { print "L" mark(); w(); %TAIL% }`, 0, "async"},
+	{"pipe-write-blocked-main-rule", `NR == 2 { s = sprintf("%70000s", "x"); pre(); for (i = 0; i < 60; i++) print s | "%CMD%"; post() }
+{ print "L" mark() }
+END { %TAIL% }`, 4, "async"},
 	{"two-children", `BEGIN { print "L" mark(); pre(); print "x" | "%CMD%"; "block" | getline y; post(); %TAIL% }`, 0, "async"},
+}
+
+// c15Subproc are short programs that start child processes (through vsh); they are run under
+// contexts that never fire, and again with Execute on the same Interpreter after that context has
+// been cancelled (a finished call must leave nothing of its context behind).
+var c15Subproc = []struct {
+	construct, src string
+	nrec           int
+}{
+	{"sub-system", `BEGIN { for (i = 0; i < 3; i++) { r = system("mark:%MARK%;exit:" i); print "L" mark(); if (r != i) print "BAD " r } }`, 0},
+	{"sub-getline-pipe", `BEGIN { while (("lines:x:5" | getline v) > 0) { n++; print "L" mark() } close("lines:x:5"); if (n != 5) print "BAD " n }`, 0},
+	{"sub-print-pipe", `{ print $1 | "catto:%OUT%" }
+END { r = close("catto:%OUT%"); print "L" mark(); if (r != 0) print "BAD " r }`, 4},
+	{"sub-print-pipe-end-of-run", `{ print $1 | "catto:%OUT%" }`, 5},
+	{"sub-mixed-main-rule", `NR % 2 { system("mark:%MARK%") }
+{ "emit:k" NR | getline v; close("emit:k" NR); print "L" mark(); if (v != "k" NR) print "BAD " v }`, 6},
+	{"sub-in-function-END", `function f(   v) { "emit:z" | getline v; close("emit:z"); return v system("exit:0") }
+END { print "L" mark(); if (f() != "z0") print "BAD" }`, 2},
 }
 
 var c15Tails = []struct{ name, src string }{
